@@ -99,3 +99,9 @@ func FirstDiff(a, b string) string {
 	}
 	return strings.Join([]string{"A: ..." + a[lo:ha], "B: ..." + b[lo:hb]}, " | ")
 }
+
+// HashN maps s to 0..n-1 (fixed, seed-independent sampling of cases).
+func HashN(s string, n int) int {
+	h := sha256.Sum256([]byte(s))
+	return int(uint32(h[0])<<8|uint32(h[1])) % n
+}
